@@ -37,6 +37,8 @@ def cases(tier, seed):
         yield {"fam": "semantic_boundary", "i": i}
     for i in range(6 if tier == "quick" else 48):
         yield {"fam": "huge_labels", "i": i}
+    for i in range(18 if tier == "quick" else 180):
+        yield {"fam": "bigvol", "i": i}
 
 
 def setup(ctx):
@@ -152,6 +154,18 @@ def run(case, ctx):
         pred[36:38] = pl[4]
         ths = {"IOU": [0.5], "DSC": [0.5], "ASSD": [1.0]}
         ctx.count("f:C04.labels_beyond_2^24")
+        run_pair(ctx, pred, refa, fam, thresholds=ths, metrics=("IOU",) if i % 2 else ("DSC",))
+        return
+    elif fam == "bigvol":
+        # sparse volumes beyond 2^18 / 2^20 / 2^22 voxels, instances in the first and last voxels, unmatched prediction
+        # in the far corner; also a prediction map without any background voxel
+        pred, refa = gen.big_volume_pair(ctx.seed, i, ctx.tier)
+        if i % 6 == 5 and pred.size <= 2**21:
+            pred = pred.copy()
+            pred[pred == 0] = 9  # one big unmatched "rest" instance: no background in the prediction
+            ctx.count("f:C04.big_volume_without_background")
+        ths = {"IOU": [0.3], "DSC": [0.5]}
+        ctx.count("f:C04.big_sparse_volume")
         run_pair(ctx, pred, refa, fam, thresholds=ths, metrics=("IOU",) if i % 2 else ("DSC",))
         return
     elif fam == "boundary":
